@@ -416,6 +416,8 @@ func c13(run *core.Run, replay string) {
 		"MM":   {"wav", "bmp", "ppm"},
 		"RLT":  {"runs", "longruns", "zeros", "constchunks"},
 		"ZRLT": {"zeros", "longruns", "runs"},
+		"BWT":  {"fibword", "thuemorse", "bigperiod", "periodic", "repeatblocks"},
+		"BWTS": {"fibword", "thuemorse", "bigperiod"},
 	}
 	for t, shs := range affinity {
 		for hi, sh := range shs {
